@@ -246,6 +246,36 @@ func c19objects() []c19obj {
 				{"conn.SetDeadline", func() { _ = c.SetDeadline(zzvsched.Now().Add(time.Millisecond)) }},
 			}
 		}},
+		{"NAT router under traffic", func() []c19op {
+			root, _ := vnet.NewRouter(&vnet.RouterConfig{CIDR: "1.2.3.0/24", LoggerFactory: lf()})
+			lan, _ := vnet.NewRouter(&vnet.RouterConfig{CIDR: "10.0.0.0/24", LoggerFactory: lf()})
+			_ = root.AddRouter(lan)
+			w1, _ := vnet.NewNet(&vnet.NetConfig{StaticIPs: []string{"1.2.3.10"}})
+			w2, _ := vnet.NewNet(&vnet.NetConfig{StaticIPs: []string{"1.2.3.20"}})
+			a1, _ := vnet.NewNet(&vnet.NetConfig{StaticIPs: []string{"10.0.0.1"}})
+			_ = root.AddNet(w1)
+			_ = root.AddNet(w2)
+			_ = lan.AddNet(a1)
+			_ = root.Start()
+			ca, _ := a1.ListenUDP("udp", &net.UDPAddr{IP: net.ParseIP("10.0.0.1"), Port: 5000})
+			c1, _ := w1.ListenUDP("udp", &net.UDPAddr{IP: net.ParseIP("1.2.3.10"), Port: 7000})
+			to1 := &net.UDPAddr{IP: net.ParseIP("1.2.3.10"), Port: 7000}
+			to2 := &net.UDPAddr{IP: net.ParseIP("1.2.3.20"), Port: 7000}
+			// prime the mapping and learn its external address
+			_, _ = ca.WriteTo([]byte("hello"), to1)
+			buf := make([]byte, 16)
+			_, ext, _ := c1.ReadFrom(buf)
+			return []c19op{
+				{"lan->new-remote", func() { _, _ = ca.WriteTo([]byte("x"), to2) }},
+				{"wan->mapping", func() {
+					if ext != nil {
+						_, _ = c1.WriteTo([]byte("y"), ext)
+					}
+				}},
+				{"lan->known-remote", func() { _, _ = ca.WriteTo([]byte("z"), to1) }},
+				{"lan.read", func() { _ = ca.SetReadDeadline(zzvsched.Now().Add(time.Millisecond)); _, _, _ = ca.ReadFrom(make([]byte, 8)) }},
+			}
+		}},
 		{"independent networks", func() []c19op {
 			build := func(cidr, ip string) func() {
 				return func() {
@@ -267,7 +297,7 @@ func c19objects() []c19obj {
 	}
 }
 
-func c19counts() []int { return []int{6, 5, 6, 8, 4, 3, 8, 2} }
+func c19counts() []int { return []int{6, 5, 6, 8, 4, 3, 8, 3, 2} }
 
 func init() {
 	register(&Check{ID: "C19",
@@ -283,7 +313,7 @@ func init() {
 				n := cnt[oi]
 				for i := 0; i < n; i++ {
 					for j := i; j < n; j++ {
-						if i == j && n > 2 && tier == "quick" && !(oi == 7) {
+						if i == j && n > 2 && tier == "quick" && !(oi == 8) {
 							continue // same operation twice: thorough only
 						}
 						out = append(out, c19scenario(o, []int{i, j}, bound))
@@ -297,7 +327,7 @@ func init() {
 			}
 			return out
 		},
-		Rule: "programs: for each object (packet buffer, deadline, dpipe, vnet socket + running router, token bucket filter, delay+loss filter, UDP listener + connection, two independent networks) every unordered pair (thorough: also each operation with itself and selected triples) of its concurrent-safe operations runs in separate threads after a sequential set-up; every schedule within the deviation bound runs under the Go race detector with a scheduler hand-off invisible to it; a violation is a detector report whose two accesses are both in repository code",
+		Rule: "programs: for each object (packet buffer, deadline, dpipe, vnet socket + running router, NAT router under traffic, token bucket filter, delay+loss filter, UDP listener + connection, two independent networks) every unordered pair (thorough: also each operation with itself and selected triples) of its concurrent-safe operations runs in separate threads after a sequential set-up; every schedule within the deviation bound runs under the Go race detector with a scheduler hand-off invisible to it; a violation is a detector report whose two accesses are both in repository code",
 		Assumptions: []string{"the race detector keeps a bounded shadow history per memory word; the harnesses are short, so eviction is unlikely but possible",
 			"operations documented as construction-only (TBFQueueSizeInBytes, Bridge.SetLossChance) are not in the alphabet",
 			"happens-before edges of mutex/rwmutex/waitgroup/once/channel/timer/go are re-created for the detector by the shim (runtime.RaceAcquire/Release); the real channel, atomic and go operations are executed by the thread itself"}})
